@@ -18,7 +18,7 @@ import threading
 # singledispatch (dispatch, register, _find_impl iterate and mutate the printer registry in Python).
 EXTRA_TRACED_FILES = {functools.__file__}
 
-WATCHDOG = 30.0
+WATCHDOG = 10.0
 
 
 class ScheduleError(Exception):
@@ -87,9 +87,42 @@ class _ThreadingProxy:
 
 
 def cooperate_locks(pkgdir):
-    """Replace lock objects / lock factories bound in the package's module namespaces.  -> count"""
+    """Replace lock objects / lock factories reachable from the package's module namespaces: module
+    globals, and (two levels deep) attributes of the objects bound there - a refactoring may keep its
+    lock inside a registry object.  -> count"""
     import _thread
+    import types
     lock_types = (type(_thread.allocate_lock()), type(threading.RLock()))
+
+    def coop(val):
+        return CoopRLock() if isinstance(val, lock_types[1]) else CoopLock()
+
+    def attrs_of(obj):
+        names = list(getattr(obj, '__dict__', {}) or {})
+        for klass in type(obj).__mro__:
+            sl = getattr(klass, '__slots__', ())
+            names.extend([sl] if isinstance(sl, str) else list(sl))
+        return [n for n in names if isinstance(n, str) and not n.startswith('__')]
+
+    def scan(obj, depth):
+        n = 0
+        if depth == 0 or isinstance(obj, (types.ModuleType, types.FunctionType, type, str, bytes, int, float, tuple, frozenset)):
+            return 0
+        for a in attrs_of(obj):
+            try:
+                val = getattr(obj, a)
+            except Exception:     # noqa
+                continue
+            if isinstance(val, lock_types):
+                try:
+                    setattr(obj, a, coop(val))
+                    n += 1
+                except Exception:     # noqa
+                    pass
+            elif not isinstance(val, CoopLock):
+                n += scan(val, depth - 1)
+        return n
+
     n = 0
     for mod in list(sys.modules.values()):
         f = getattr(mod, '__file__', None)
@@ -97,7 +130,7 @@ def cooperate_locks(pkgdir):
             continue
         for name, val in list(vars(mod).items()):
             if isinstance(val, lock_types):
-                setattr(mod, name, CoopRLock() if isinstance(val, lock_types[1]) else CoopLock())
+                setattr(mod, name, coop(val))
                 n += 1
             elif val is threading.Lock:
                 setattr(mod, name, CoopLock)
@@ -108,6 +141,8 @@ def cooperate_locks(pkgdir):
             elif val is threading:
                 setattr(mod, name, _ThreadingProxy())
                 n += 1
+            elif not name.startswith('__'):
+                n += scan(val, 2)
     return n
 
 
